@@ -205,12 +205,13 @@ def harness(cfg, ns):
 
         class Scaled(ns.ds.AbstractDissimilarity):
             def __init__(self):
+                ns.ds.AbstractDissimilarity.__init__(self, categories=E["D"].categories, delta_empty=1.0)
                 self.delta_empty = E["de"] * cfac
                 self.categories = E["D"].categories
                 self.d_mat = lambda u1, u2: table.val(int(u1[3]), int(u2[3])) * cfac
 
             def compile_d_mat(self):
-                return self.d_mat
+                return lambda u1, u2: table.val(int(u1[3]), int(u2[3])) * cfac
 
             def d(self, a, b):
                 return E["D"].d(a, b) * cfac
@@ -316,7 +317,35 @@ def replay(case):
                 if not close(g, b * fac):
                     bad.append(f"{nm} after {case['tr']}: {g}, expected {b * fac}")
     elif kind == "labels":
-        return dict(reproduced=None, detail="structural identity; see C04 for the value checks")
+        # the same sequence on the real build: ONE dissimilarity object, one fresh two-unit continuum per label pair
+        import itertools
+        de = F(case["de"])
+
+        def both(D, l1, l2):
+            cc = pa.Continuum()
+            cc.add(ANN[0], Segment(0, 1), l1)
+            cc.add(ANN[1], Segment(2, 5), l2)
+            ua = D._build_arrays_continuum(cc)
+            us = [list(cc._annotations[ANN[a]])[0] for a in range(2)]
+            return float(D.d_mat(ua[0][0], ua[1][0])), float(D.d(us[0], us[1]))
+        if case["dissim"] == "absolute":
+            D = pa.AbsoluteCategoricalDissimilarity(delta_empty=de)
+            ren = {"x": "q", "y": "a", "z": "m"}
+            for l1, l2 in itertools.product("xyz", repeat=2):
+                a, b = both(D, l1, l2), both(D, ren[l1], ren[l2])
+                want = de * (l1 != l2)
+                for nm, v in (("d_mat", a[0]), ("d", a[1]), ("d_mat renamed", b[0]), ("d renamed", b[1])):
+                    if not close(v, want):
+                        bad.append(f"absolute ({l1},{l2}): {nm} = {v}, expected {want}")
+        else:
+            p_ = [0.0, 1.5, 4.0]
+            ren = {"b": "bb", "d": "dz", "f": "x"}
+            D1 = pa.OrdinalCategoricalDissimilarity(["d", "b", "f"], [p_[1], p_[0], p_[2]], delta_empty=de)
+            D2 = pa.OrdinalCategoricalDissimilarity(["x", "dz", "bb"], [p_[2], p_[1], p_[0]], delta_empty=de)
+            for l1, l2 in itertools.product("bdf", repeat=2):
+                a, b = both(D1, l1, l2), both(D2, ren[l1], ren[l2])
+                if not (close(a[0], b[0]) and close(a[1], b[1]) and close(a[0], a[1])):
+                    bad.append(f"ordinal ({l1},{l2}): {a} vs renamed {b}")
     else:
         r0 = pipeline.replay_pipeline(dict(case, kind="pipeline"))
         if r0.get("reproduced") or case.get("construct_only"):
